@@ -49,6 +49,9 @@ impl Contract<Empty> for HostileContract {
             // re-entry: the first transfer request of the operation triggers the program, each call as a
             // sub-transaction whose failure is swallowed (reply on error, see `reply`)
             let prog: Vec<Value> = std::mem::take(&mut self.shared.borrow_mut().reentry);
+            if !prog.is_empty() {
+                self.shared.borrow_mut().reentry_ran = Some(prog.len());
+            }
             let mut resp = Response::new();
             for (k, f) in prog.iter().enumerate() {
                 let to = f["to"].as_str().unwrap_or("").to_string();
@@ -84,8 +87,11 @@ impl Contract<Empty> for HostileContract {
         bail!("sudo not implemented")
     }
 
-    fn reply(&self, _deps: DepsMut, _env: Env, _msg: Reply) -> AnyResult<Response> {
-        // a failed re-entrant call is swallowed
+    fn reply(&self, _deps: DepsMut, _env: Env, msg: Reply) -> AnyResult<Response> {
+        // a failed re-entrant call is swallowed (and noted for the observation)
+        if msg.id >= 1000 {
+            self.shared.borrow_mut().reentry_failed.push((msg.id - 1000) as usize);
+        }
         Ok(Response::new())
     }
 
